@@ -9,7 +9,7 @@ def run(ctx):
     big = ctx.thorough()
     behs = []
     # every event in every state: one witness per transition of the complete graph of the bounded machine
-    c = sc.consts("ebgp", {"ok", "badAS"}, {"annA", "wdA", "noOrigin"}, {"badType"}, {"ManualStop", "HoldExpires", "Notification", "ConnLost"}, 7 if not big else 8)
+    c = sc.consts("ebgp", {"ok", "badAS"}, {"annA", "wdA", "noOrigin"}, {"badType"}, {"ManualStop", "HoldExpires", "Notification", "NotifHdr", "NotifOpen", "ConnLost"}, 7 if not big else 8)
     behs += sc.run_family(ctx, "ebgp", c, 6000 if big else 700, sim=(600 if big else 80, 12))
     c = sc.consts("ibgp", {"ok", "idOurs"}, {"annAB", "wdAannB"}, {"badMarker"}, {"ManualStop", "Notification"}, 6)
     behs += sc.run_family(ctx, "ibgp", c, 3000 if big else 300)
